@@ -36,6 +36,11 @@ pub async fn handle(
             })?;
     let consumer_group = consumer_group.read().await;
     let response = mapper::map_consumer_group(&consumer_group).await;
+    // Journal the ID that was actually assigned, so that replay cannot assign another one.
+    let command = CreateConsumerGroup {
+        group_id: Some(consumer_group.group_id),
+        ..command
+    };
     drop(consumer_group);
 
     let system = system.downgrade();
